@@ -405,7 +405,7 @@ def oracle_cases(rng, tier):
     cases = []        # (key-stem, kind, params)
     thorough = tier == 'thorough'
     # ---- trees ---------------------------------------------------------------
-    nmax = 7 if thorough else 5
+    nmax = 6 if thorough else 5
     for T in O.all_trees(nmax):
         H = O.labelled(T, rng)
         desc = O.graph_desc(H); n = H.order(); m = H.number_of_edges()
@@ -617,7 +617,7 @@ def run(run, tier):
                      'every single-seed placement (shuffled string/tuple labels), edge+node weights, one initially recovered node; Attack_rate_discrete(n) vs EBCM_discrete row n; '
                      'Attack_rate_* vs t->infinity of EBCM/EBCM_discrete; tau=0 and gamma=0 on all %d graph entry points (rho form) on heterogeneous and regular graphs; each theorem of '
                      'Props/C08.v re-evaluated numerically on the Python right-hand sides.  Tolerance 1e-4*N for curves, rel 1e-9 for point values.  Non-trivial = not skipped for '
-                     'non-convergence.' % (7 if thorough else 5, len(O.GRAPH_SIR + O.GRAPH_SIS)),
+                     'non-convergence.' % (6 if thorough else 5, len(O.GRAPH_SIR + O.GRAPH_SIS)),
                      samples, {'distribution': dict(dist, oracle_cases=stats, skipped_not_converged=skipped),
                                'validated_numerically_only': ['pair-based tree exactness (cited: Sharkey et al. 2015)', 't->infinity limits (convergence)',
                                                               'tau=0 / gamma=0 for heterogeneous_pairwise, effective_degree, individual_based, pair_based, pref_mix, heterogeneous_meanfield gamma=0'],
